@@ -399,7 +399,7 @@ def check_exp(script, replies, n):
     line = script.lines[n]
     exp = line.exp
     got = replies[n]
-    if exp is None or got == "-":
+    if exp is None or got in ("-", "poisoned"):
         return None
     kind = exp[0]
     if kind == "eq":
